@@ -20,9 +20,12 @@ def run(tier, seed):
         ck.binary = binary
         rr = vlib.run_harness(binary, PROP, vec, seed=seed, tier=tier, shards=4, timeout=3000)
         ck.absorb(rr)
-        for d in rr.divs:
-            d["got"] = "%s [%s build]" % (d.get("got"), "purego" if "purego" in tags else "default")
-        ck.triage(rr.divs, binary=binary)
+        def label(res, tags=tags):
+            for d in res.divs:
+                d["got"] = "%s [%s build]" % (d.get("got"), "purego" if "purego" in tags else "default")
+            return res
+        label(rr)
+        ck.triage(rr.divs, binary=binary, rerun=lambda again=rr.again: label(again()))
     os.unlink(vec)
     ck.exhaustive = True
     ck.rule = ("TLC enumerates pairs of strings of length <= MaxLen over the base byte with one or two deviations from 16 representative "
